@@ -47,7 +47,7 @@ class ParamsCheck(ModuleCheck):
 
 
 GEN = T([dict(cfg="GEN_Params.cfg", shards=3)], [dict(cfg="GEN_Params_big.cfg", shards=4, timeout=3000)])
-MC = T([dict(cfg="MC_Params.cfg", timeout=900)], [dict(cfg="MC_Params_big.cfg", timeout=3400)])
+MC = T([dict(cfg="MC_Params.cfg", timeout=900, heap="4g", workers=6)], [dict(cfg="MC_Params_big.cfg", timeout=3400, heap="4g", workers=8)])
 RND = T([dict(n=15, len=1, procs=4, cfg="")], [dict(n=150, len=1, procs=8, cfg="")])
 SCN = [dict(file=f"scenarios/params_{f}.ndjson") for f in ("F14", "F18", "F19", "F21", "F22")]
 
